@@ -1,6 +1,6 @@
 """C11 — the Huffman stage is lossless for every symbol sequence and alphabet size."""
 import itertools, json, os
-import lib
+import lib, gen
 
 LEVEL = "proof"
 PROP_FILE = "Properties_C11"
@@ -98,6 +98,8 @@ def oracle(case, out):
 
 
 def run(chk):
+    cchanged, cnotes = gen.gen_consts()
+    chk.cov["t2"] = {k: str(v) for k, v in cnotes.items()}
     exe = lib.build_impl("asan")
     chk.prove(PROP_FILE)
     model = lib.build_model()
